@@ -78,6 +78,9 @@ def scenario(draw):
     sc["output_twice"] = draw(st.integers(0, 7)) == 0
     sc["opts"] = opts
     sc["order_seed"] = draw(st.integers(0, 10**6))
+    # a source file whose name is not valid UTF-8 (legal on Linux) and which the selected codemod changes: its path
+    # cannot be encoded in the JSON report, so the report cannot be written
+    sc["badname"] = draw(st.integers(0, 5)) == 0
     return sc
 
 
@@ -88,6 +91,9 @@ def build(sc, sd):
     rnd = random.Random(sc["order_seed"])  # deterministic function of the drawn case
     proj = sd / "proj"
     runner.write_tree(proj, {"a.py": "x = set([1, 2])\n", "sub/b.py": "y = 1\n"})
+    if sc.get("badname"):
+        with open(os.path.join(os.fsencode(str(proj)), b"caf\xe9.py"), "wb") as fh:
+            fh.write(b"z = set([3, 4])\n")
     directory = str(proj) if sc["directory"] == "ok" else str(sd / "nope")
     groups = []  # each group = list of tokens that must stay adjacent
     for o in sc["opts"]:
@@ -216,6 +222,8 @@ def build(sc, sd):
         malformed=malformed,
         ai_bad=ai["azure_openai"] not in ("none", "both-empty") or ai["llama"] in ("key-only", "endpoint-only", "key+empty-endpoint", "endpoint+empty-key"),
         out_unwritable=out in ("directory", "missing-parent", "through-file", "devfull"),
+        # the report names a changed file whose path cannot be encoded (only when the trigger codemod runs)
+        report_unencodable=bool(sc.get("badname")) and sel in ("include", "include-twice", "unknown-id"),
         out_path=str(out_path) if out_path is not None else None,
         out_kind=out,
     )
@@ -239,9 +247,17 @@ def expected_statuses(f):
         return {1}
     if f["ai_bad"]:
         return {3}
-    if f["out_path"] is not None and f["out_unwritable"]:
+    if f["out_path"] is not None and (f["out_unwritable"] or f.get("report_unencodable")):
         return {2}
     return {0}
+
+
+def _is_report(data: bytes) -> bool:
+    try:
+        doc = json.loads(data)
+    except ValueError:
+        return False
+    return isinstance(doc, dict) and "results" in doc
 
 
 def eval_case(sc, stats=None):
@@ -266,7 +282,9 @@ def eval_case(sc, stats=None):
         if op and not devfull:
             if os.path.isfile(op):
                 now = open(op, "rb").read()
-                written = now != before
+                # "written" = the path now holds a (new) report document; an empty or truncated file left behind by a
+                # failed write is not a report
+                written = now != before and _is_report(now)
         elif op and devfull and not os.path.islink(op) and os.path.isfile(op):
             written = True  # the symlink was replaced by a regular report file
         if res.exit != 0 and written:
